@@ -78,6 +78,8 @@ void __cxa_throw(void *obj, const void *tinfo, void *dtor)
 void *__builtin_eh_pointer(int region) { (void)region; return __exc_obj; }
 /* guarded initialisation of a function-local static (single thread): the guard's first byte says "initialised" */
 unsigned char __atomic_load_1(const void *p, int order) { (void)order; return *(const unsigned char *)p; }
+char __dso_handle;
+void __g2c_atexit_dropped(void) { }   /* stands for a __cxa_atexit registration (dropped by the renderer) */
 int __cxa_guard_acquire(long *g) { return *(unsigned char *)g == 0; }
 void __cxa_guard_release(long *g) { *(unsigned char *)g = 1; }
 void __cxa_guard_abort(long *g) { (void)g; }
